@@ -22,7 +22,10 @@ theorem C18_plan_matches_model :
     planOf "FullFrontend" =
       some (["self._solver_backend.__class__.__name__", "self.timeout", "self.max_memory", "self._track", "super().__getstate__()"],
             ["backend_name", "self.timeout", "self.max_memory", "self._track", "base_state"],
-            [("_solver_backend", "backends.backends_by_type[backend_name]"), ("_tls", "threading.local()"), ("_to_add", "[]")]) ∧
+            [("_solver_backend", "backends.backends_by_type[backend_name]"), ("_tls", "threading.local()"), ("_to_add", "[]"),
+             -- the stamp by which each thread knows whether its Z3 solver has seen all constraints; with one thread it is
+             -- out of date exactly when `_to_add` is non-empty, which is what the model keeps
+             ("_added", "0")]) ∧
     planOf "ConstraintDeduplicatorMixin" =
       some (["self._constraint_hashes", "super().__getstate__()"], ["self._constraint_hashes", "base_state"], []) ∧
     planOf "SimplifySkipperMixin" =
